@@ -145,6 +145,39 @@ def ellipse_observation(chk, n):
                       direction='trace')
 
 
+def many_events(chk):
+    """The gates are predicates of ONE event (Gates.tla evaluates them event by event): the answer for an event does not
+    depend on how many others there are.  A block of eight events whose answers are known is repeated to 150,001 and to
+    262,145 events (array and loaded sample): the mask is the block's mask, repeated."""
+    block = np.array([[100.0, 100.0], [130.0, 90.0], [400.0, 400.0], [100.0, 161.0], [0.0, 0.0], [170.0, 100.0], [99.0, 140.0],
+                      [1023.0, 5.0]])
+    d = tlc.scratch('c08n_')
+    for n in (150001, 262145):
+        ev = np.tile(block, (n // len(block) + 1, 1))[:n]
+        path = os.path.join(d, 'many.fcs')
+        fcsgen.write_sample(path, ev.tolist(), ['c1', 'c2'], [1024, 1024], datatype='F', pne=['0,0', '0,0'])
+        with warnings.catch_warnings():
+            warnings.simplefilter('ignore')
+            conts = {'array': ev, 'sample': FlowCal.io.FCSData(loadform.arg(path))}
+            for cname, x in conts.items():
+                calls = {'ellipse': lambda x: FlowCal.gate.ellipse(x, [0, 1], center=(100.0, 100.0), a=60.0, b=30.0, theta=0.0, full_output=True).mask,
+                         'high_low': lambda x: FlowCal.gate.high_low(x, [0, 1], high=1023.0, low=0.0, full_output=True).mask,
+                         'start_end': lambda x: FlowCal.gate.start_end(x, num_start=3, num_end=2, full_output=True).mask}
+                # the block's own answers, by the documented predicates (all eight events lie clear of every boundary)
+                inside = ((block[:, 0] - 100.0) / 60.0) ** 2 + ((block[:, 1] - 100.0) / 30.0) ** 2 <= 1
+                want = {'ellipse': np.tile(inside, n // 8 + 1)[:n],
+                        'high_low': np.tile(np.all((block < 1023.0) & (block > 0.0), axis=1), n // 8 + 1)[:n],
+                        'start_end': np.array([False] * 3 + [True] * (n - 5) + [False] * 2)}
+                for gate, call in calls.items():
+                    got = np.asarray(call(x))
+                    chk.case(('many', n, cname, gate), nontrivial=True)
+                    chk.traces += 1
+                    if got.shape != (n,) or not np.array_equal(got, want[gate]):
+                        first = int(np.nonzero(got != want[gate])[0][0]) if got.shape == (n,) else -1
+                        chk.violation('C08/%s/%s/many-events/mask' % (gate, cname), {'gate': gate, 'events': n, 'container': cname},
+                                      'the eight-event block\'s mask, repeated', 'first differing event: %d (of %d)' % (first, n))
+
+
 def main(chk, replay=None):
     chk.rule = ('GEN: start_end N in 0..4 x counts in -1..5; high_low all events of <=MaxN over {0,1,5,7} x container x 6 '
                 'channel forms x thresholds explicit/defaulted; ellipse integer grid points x centre/axes; non-trivial = '
@@ -231,6 +264,7 @@ def main(chk, replay=None):
             if lab is not None:
                 chk.violation('C08/%s/%s' % (label, lab), {'gate': gate, 'scenario': scn}, exp, obs)
     ellipse_observation(chk, 20 if chk.quick else 400)
+    many_events(chk)
     from harness import session
     session.run(chk, 'C08')          # spec/Session.tla: the property inside whole analysis sessions
     chk.exhaustive = True
